@@ -218,7 +218,7 @@ def _raw_canon(m):
     return resolve_resources(canon_ir(m, with_hints=False, normalise=False), dict(_blob_table()))
 
 
-def roundtrip(m, ctx, generic: bool, *, reference=None, check_clone=True, printer_cls=None, printer_kw=None):
+def roundtrip(m, ctx, generic: bool, *, reference=None, check_clone=True, check_text=True, printer_cls=None, printer_kw=None):
     """Run the print -> parse -> compare cycle on a verified module.
 
     Returns {"symptoms": [ {symptom, ...detail} ], "t1": text or None, "m2": reparsed module or None,
@@ -237,7 +237,7 @@ def roundtrip(m, ctx, generic: bool, *, reference=None, check_clone=True, printe
         p.print_metadata(c.loaded_dialects)
         return s.getvalue()
 
-    out = {"symptoms": [], "t1": None, "m2": None, "canon": None, "fixpoint_only": False}
+    out = {"symptoms": [], "t1": None, "m2": None, "canon": None, "canon2": None, "fixpoint_only": False}
     S = out["symptoms"]
     tab0 = dict(_blob_table())
     c0 = resolve_resources(canon_ir(m), tab0)
@@ -248,7 +248,7 @@ def roundtrip(m, ctx, generic: bool, *, reference=None, check_clone=True, printe
         S.append({"symptom": "print-crash", "exc": type(e).__name__, "site": exc_site(e), "msg": str(e)[:200]})
         return out
     out["t1"] = t1
-    t1b = pr(m, ctx)
+    t1b = pr(m, ctx) if check_text else t1
     if t1b != t1:
         S.append({"symptom": "print-nondeterministic", "detail": _first_text_diff(t1, t1b)})
     if check_clone:
@@ -273,6 +273,7 @@ def roundtrip(m, ctx, generic: bool, *, reference=None, check_clone=True, printe
     out["m2"] = m2
     tab1 = dict(_blob_table())
     c1 = resolve_resources(canon_ir(m2), tab1)
+    out["canon2"] = c1
     expected = reference if reference is not None else c0
     if c1 != expected:
         d = first_op_diff(m, m2, tab0, tab1) or {"op": "?", "component": "unattributed", "detail": "canon differs"}
@@ -283,7 +284,7 @@ def roundtrip(m, ctx, generic: bool, *, reference=None, check_clone=True, printe
             m2.verify()
         except Exception as e:  # noqa: BLE001
             S.append({"symptom": "reparsed-ir-does-not-verify", "msg": str(e)[:200]})
-        t2 = pr(m2, ctx2)
+        t2 = pr(m2, ctx2) if check_text else t1
         if t2 != t1:
             raw0 = resolve_resources(canon_ir(m, normalise=False), tab0)
             raw1 = resolve_resources(canon_ir(m2, normalise=False), tab1)
@@ -337,3 +338,24 @@ def _perr_where(e, text):
         return {"pos": start, "line": text[ls:le if le >= 0 else len(text)].strip()[:300], "at": text[start:start + 12]}
     except Exception:  # noqa: BLE001 - witness only
         return None
+
+
+def selective_printer():
+    """Printer subclass that uses the custom format only for the op names in `custom_names` (everything else is
+    printed in the generic format) - used to attribute a custom-form failure to one operation."""
+    from dataclasses import dataclass, field
+    from xdsl.printer import Printer
+
+    @dataclass(eq=False, repr=False)
+    class SelectivePrinter(Printer):
+        custom_names: frozenset = field(default_factory=frozenset)
+
+        def print_op(self, op):
+            prev = self.print_generic_format
+            self.print_generic_format = op.name not in self.custom_names
+            try:
+                super().print_op(op)
+            finally:
+                self.print_generic_format = prev
+
+    return SelectivePrinter
